@@ -255,11 +255,15 @@ def run (ctx):
   if len(dc.params) >= 3:
     cp = dc.params[2]
     for d in dels:
-      env = q.Env({'dpid in self._connections': True, 'dpid not in self._connections': False, '%s is not None' % cp: True, '%s is None' % cp: False,
-                   'self._connections[dpid] is not %s' % cp: True, 'self._connections[dpid] is %s' % cp: False,
-                   'self._connections[dpid] != %s' % cp: True, 'self._connections[dpid] == %s' % cp: False,
-                   'self._connections.get(dpid) is not %s' % cp: True, 'self._connections.get(dpid) is %s' % cp: False})
-      r = q.reach_under(repo, nmod, g4, env, nexus)
+      # by value: the registry holds NEW for this dpid, the caller passes OLD
+      NEW_ = q.Rec(name='new'); OLD_ = q.Rec(name='old')
+      dp_ = dc.params[1]
+      is_sub = lambda e: isinstance(e, ast.Subscript) and isinstance(e.ctx, ast.Load) and q.mentions_attr(e.value, '_connections')
+      is_get = lambda e: isinstance(e, ast.Call) and ((call_name(e) == 'get' and q.mentions_attr(e.func.value, '_connections')) or (call_name(e) == 'getConnection' and norm(e.func.value) == 'self'))
+      is_in = lambda e: isinstance(e, ast.Compare) and len(e.ops) == 1 and isinstance(e.ops[0], ast.In) and q.mentions_attr(e.comparators[0], '_connections')
+      is_nin = lambda e: isinstance(e, ast.Compare) and len(e.ops) == 1 and isinstance(e.ops[0], ast.NotIn) and q.mentions_attr(e.comparators[0], '_connections')
+      env = q.Env({cp: OLD_}, [(is_sub, NEW_), (is_get, NEW_), (is_in, True), (is_nin, False)])
+      r = q.reach_under_cp(repo, nmod, g4, env, nexus)
       ctx.ob('R-DOM', dc, "a stale connection cannot unregister the datapath's newer connection", d not in r,
              "delete unreachable when the registered connection is a different object" if d not in r else
              "the registry entry is deleted even when it holds a *different* (newer) connection for that dpid", dc, 'D5')
@@ -276,8 +280,30 @@ def run (ctx):
   if sd is not None:
     ctx.analysed(sd); g5 = q.cfg_of(sd)
     sn = g5.nodes_with_call(lambda c: call_name(c) == 'send')
-    good = bool(sn) and any('dpid in self._connections' in f for f in q.fact_strs(g5, sn[0])) and 'self._connections[dpid].send' in sn[0].text(200)
-    ctx.ob('R-AGREE', sd, "sendToDPID sends through the registered connection for that dpid", good, sn[0].text(60) if sn else "?", sd, 'D5')
+    # by value: with connection R registered for the dpid the send goes through R; with nothing registered nothing is sent
+    R_ = q.Rec(name='registered')
+    dp_ = sd.params[1]
+    def sends_under (registered):
+      is_sub = lambda e: isinstance(e, ast.Subscript) and isinstance(e.ctx, ast.Load) and q.mentions_attr(e.value, '_connections')
+      is_get = lambda e: isinstance(e, ast.Call) and ((call_name(e) == 'get' and q.mentions_attr(e.func.value, '_connections')) or (call_name(e) == 'getConnection' and norm(e.func.value) == 'self'))
+      is_in = lambda e: isinstance(e, ast.Compare) and len(e.ops) == 1 and isinstance(e.ops[0], ast.In) and q.mentions_attr(e.comparators[0], '_connections')
+      is_nin = lambda e: isinstance(e, ast.Compare) and len(e.ops) == 1 and isinstance(e.ops[0], ast.NotIn) and q.mentions_attr(e.comparators[0], '_connections')
+      env = q.Env({}, [(is_sub, R_ if registered else q.OPAQUE), (is_get, R_ if registered else None), (is_in, registered), (is_nin, not registered)])
+      out = []
+      def on_node (n, e):
+        for c in q.node_calls(n):
+          if call_name(c) == 'send' and isinstance(c.func, ast.Attribute):
+            try: out.append(q.eval_env2(repo, nmod, c.func.value, e, nexus))
+            except Exception: out.append('?')
+      q.paths_under(repo, nmod, g5, env, g5.entry, [g5.exit], nexus, limit=40, on_node=on_node)
+      return out
+    s_reg, s_none = sends_under(True), sends_under(False)
+    if any(x == '?' for x in s_reg + s_none):
+      ctx.undecided('R-AGREE', sd, "sendToDPID sends through the registered connection for that dpid", "receiver of send() not evaluable", sd, 'D5')
+    else:
+      good = bool(s_reg) and all(x is R_ for x in s_reg) and not s_none
+      ctx.ob('R-AGREE', sd, "sendToDPID sends through the registered connection for that dpid", good, sn[0].text(60) if good and sn else
+             "with a connection registered the data goes to %s, with none registered %d send(s) happen" % ([getattr(x, 'get', lambda k: x)('name') if isinstance(x, q.Rec) else x for x in s_reg], len(s_none)), sd, 'D5')
   # ---- D6 declared events --------------------------------------------------------------------------
   def declared (cls):
     _, v = cls.find_assign('_eventMixin_events')
